@@ -86,8 +86,8 @@ def analyse(seed):
     cf, pw, cu = ts.counterfactual, ts.pointwise_difference, ts.cumulative_effect
     for name, d in (('counterfactual', cf), ('pointwise difference', pw), ('cumulative effect', cu)):
       lo, es, up = (np.array(d[c], dtype=float) for c in ('lower', 'estimate', 'upper'))
-      if np.any(lo > es) or np.any(es > up):
-        out['fails'].append('%s %s: lower <= estimate <= upper violated' % (metric, name))
+      if not (np.all(lo <= es) and np.all(es <= up)):          # an undefined (NaN) bound is a violation too
+        out['fails'].append('%s %s: lower <= estimate <= upper violated%s' % (metric, name, ' (undefined values)' if np.isnan(lo).any() or np.isnan(es).any() or np.isnan(up).any() else ''))
     pre, test, cool = tbrfam.totals(spec, col)
     y_all = np.array([p[1] for p in pre + test + cool])
     if len(cf) != len(y_all) or not np.allclose(np.array(cf['estimate'], dtype=float) + np.array(pw['estimate'], dtype=float), y_all, rtol=1e-9, atol=1e-6):
